@@ -133,4 +133,11 @@ theorem reset_discards (st : St) : (resetSt st).sees = [] ∧ (resetSt st).count
 /-- non-vacuity: three pending observations, capacity 2: two Queries deliver 2 + 1 -/
 example : (drain 2 4 [⟨1, [1], [2], [3]⟩, ⟨0, [1], [4], [3]⟩, ⟨1, [5], [2], [3]⟩]).map List.length = [2, 1] := by decide
 
+/-- a Query whose response buffer the platform refuses: nothing is transmitted AND nothing is lost - the record of
+    observations is exactly what it was (round 13, seeded change C07_n took the batch out of the record first) -/
+theorem query_alloc_refused (c : Cfg) (w : World) (st : St) (img : List Nat) (hm : (w.malloc c.mtuEff).2 = false) :
+    (parseQuery c w st img).fx = [] ∧ (parseQuery c w st img).st.sees = st.sees ∧ (parseQuery c w st img).st.count = st.count := by
+  unfold parseQuery
+  simp [hm]
+
 end LLTD.C07
